@@ -44,13 +44,17 @@ type cfg struct {
 	Depth      int
 	Concurrent bool // each received message processed in its own thread; copies injected back-to-back
 	Preempt    int
-	DTLS       bool // the connection runs over the real dtls/server.Session (read loop, datagram stream) instead of the in-memory session
+	Code       codes.Code // request method of m1 and m2 (0 = GET); RFC 8132 adds FETCH 0.05, PATCH 0.06, iPATCH 0.07
+	DTLS       bool       // the connection runs over the real dtls/server.Session (read loop, datagram stream) instead of the in-memory session
 }
 
 func (c cfg) String() string {
 	tr := ""
 	if c.DTLS {
 		tr = " transport=dtls-session"
+	}
+	if c.Code != 0 {
+		tr += fmt.Sprintf(" method=%v", c.Code)
 	}
 	if c.Concurrent {
 		return fmt.Sprintf("dedup concurrent copies m1=%v preempt<=%d%s", c.K[0], c.Preempt, tr)
@@ -111,7 +115,11 @@ func scenario(c cfg) *mcx.Scenario {
 				opts.DTLS = c.DTLS
 				w = udpw.New(opts)
 				mk := func(k kind, i int) message.Message {
-					return message.Message{Type: k.Type, Code: codes.GET, MessageID: k.MID, Token: message.Token{0xC0 + byte(i)},
+					code := codes.GET
+					if c.Code != 0 {
+						code = c.Code
+					}
+					return message.Message{Type: k.Type, Code: code, MessageID: k.MID, Token: message.Token{0xC0 + byte(i)},
 						Options: message.Options{{ID: message.URIPath, Value: []byte(fmt.Sprintf("res%d", i))}}}
 				}
 				type entry struct {
@@ -252,6 +260,12 @@ func main() {
 			scs = append(scs, scenario(cfg{K: [2]kind{{t1, r1, 7777}, {message.Confirmable, true, 1000}}, Depth: depth}))
 			scs = append(scs, scenario(cfg{K: [2]kind{{t1, r1, 7777}, {message.NonConfirmable, true, 1000}}, Depth: depth}))
 			scs = append(scs, scenario(cfg{K: [2]kind{{t1, r1, 5001}}, Concurrent: true, Preempt: ev.Pick(r, 2, 3)}))
+		}
+	}
+	// every request method: GET..DELETE and the RFC 8132 methods FETCH, PATCH, iPATCH (reduced family per method)
+	for _, code := range []codes.Code{codes.POST, codes.PUT, codes.DELETE, codes.Code(5), codes.Code(6), codes.Code(7)} {
+		for _, t1 := range types {
+			scs = append(scs, scenario(cfg{K: [2]kind{{t1, true, 5001}, {message.Confirmable, false, 5002}}, Depth: ev.Pick(r, 3, 5), Code: code}))
 		}
 	}
 	// the same conn code over the real DTLS session type (reduced family)
